@@ -30,7 +30,9 @@ IdOf(a)    == CASE a = "1" -> 1 [] a = "2" -> 2 [] a = "3" -> 3 [] OTHER -> 0
 
 \* operation names
 RegOps   == {"AddFootnote", "AddFootnoteToRun", "AddEndnote", "RemoveFootnote", "RemoveEndnote", "AddListItem", "RestartNumbering"}
-LocOps   == {"AddParagraph", "AddTable", "AddImage", "AddHeader", "AddFooter", "AddStyle", "EditStyle", "GenerateTOC",
+\* AddImageFile: the document writes its own picture to a path that every document of the process uses for its pictures
+\* (a report chart re-rendered to a fixed temporary name) and inserts it from there
+LocOps   == {"AddParagraph", "AddTable", "AddImage", "AddImageFile", "AddHeader", "AddFooter", "AddStyle", "EditStyle", "GenerateTOC",
              "SetPageMargins", "SetFootnoteConfig", "RenderTextTemplate", "ConvertMd", "ToBytes", "Save", "Open"}
 AllOps   == RegOps \cup LocOps
 \* operations whose registry update is split into sub-steps in the concurrent as-built model
@@ -113,6 +115,7 @@ LocApply0(L, R, R2, d, o) ==
     [] o.op = "AddParagraph"       -> [L EXCEPT !.nbody = @ + 1]
     [] o.op = "AddTable"           -> [L EXCEPT !.nbody = @ + 1]
     [] o.op = "AddImage"           -> [L EXCEPT !.nbody = @ + 1, !.img = @ + 1]
+    [] o.op = "AddImageFile"       -> [L EXCEPT !.nbody = @ + 1, !.img = @ + 1]
     [] o.op = "GenerateTOC"        -> [L EXCEPT !.nbody = @ + 1, !.toc = @ + 1]
     [] o.op = "AddHeader"          -> [Touch(L) EXCEPT !.hdr = TRUE]
     [] o.op = "AddFooter"          -> [Touch(L) EXCEPT !.ftr = TRUE]
